@@ -6,6 +6,7 @@ Field.form(name)), an input store, a prompt (none / scripted answers / refusal f
 a request (forms, possibly duplicated or unknown) and a schedule (natural, or hooked with ranks).
 The real solver is run in-process; the same case is printed in the driver's line protocol.
 """
+import common
 import configparser
 import os
 import random
@@ -202,6 +203,8 @@ class Case:
             return [f'verdict abort invalidInput {e.input_name}'], s, log, prompts
         except RecursionError:
             return ['verdict abort recursion'], s, log, prompts
+        except common.WorkBudgetExceeded as e:
+            return [f'verdict abort WORK-BUDGET-EXCEEDED {e}'], s, log, prompts
         except ToyError as e:
             return [f'verdict abort lineErr {log[-1][1]} {e.code}'], s, log, prompts
         except ValueError:
